@@ -35,6 +35,9 @@ func init() {
 		Variant{ID: "c04-r3-heartbeat-resets", Prop: "C04", File: "streamer.go",
 			Old: "\t\tcase ev.IsGTID():\n", New: "\t\tcase ev.IsGTID():\n\t\t\tpos.Offset = ev.NextPosition()\n",
 			Expect: "C04-R3 pos-writer@parser[arm=IsGTID"},
+		Variant{ID: "c04-r2-exit-between-accept-and-advance", Prop: "C04", File: "streamer.go",
+			Old: "\t\tpos = next\n", New: "\t\tif ctx.Err() != nil {\n\t\t\treturn ctx.Err()\n\t\t}\n\t\tpos = next\n",
+			Expect: "C04-R2 advance-required@commit"},
 		Variant{ID: "c04-r6-skip-artificial-rotate", Prop: "C04", File: "streamer.go",
 			Old: "\t\tif format.IsZero() {\n", New: "\t\tif ev.IsRotate() && ev.Timestamp() == 0 {\n\t\t\tcontinue\n\t\t}\n\t\tif format.IsZero() {\n",
 			Expect: "C04-R6 dispatch-reach@parser"},
@@ -226,6 +229,35 @@ func c04R2(a *A, r *Roles) {
 			"the position cell is advanced before the handler has accepted the transaction and is not restored on its error: after a handler failure the parser returns (and Stream stores) a position past the failed transaction, so it is never redelivered")
 	}
 	a.atLeast(rule, "pos-advance@commit", 1)
+	// ... and once the handler has accepted, every way out of commit has advanced the cell: an exit between the
+	// acceptance and the advance (a cancellation test, a late error) leaves an accepted transaction to be redelivered
+	nr := 0
+	for _, ret := range returnsOf(r.Commit) {
+		after := false
+		for _, e := range edges {
+			if edgeDominated(e[0].(*ssa.BasicBlock), e[1].(int), ret.Block()) {
+				after = true
+			}
+		}
+		if !after {
+			continue
+		}
+		nr++
+		adv := false
+		for _, s := range r.Pos.stores() {
+			if s.Fn != r.Commit {
+				continue
+			}
+			if s.block() == ret.Block() || s.block().Dominates(ret.Block()) {
+				adv = true
+			}
+		}
+		a.check(adv, rule, fmt.Sprintf("advance-required@commit[ret#%d]", nr), a.W.posOf(ret), "the exit after acceptance has advanced the position cell",
+			"commit can return after the handler accepted the transaction without having advanced the position cell: the accepted transaction is delivered again by the next attempt")
+	}
+	if nr == 0 {
+		a.undecided(rule, "advance-required@commit", a.W.posOf(hc), "no exit of commit after the handler-accepted edge found")
+	}
 }
 
 // R3: who writes the position cell.
